@@ -206,8 +206,9 @@ pub fn f_shape(thorough: bool) -> Vec<Unit> {
         }
     }
     // generator / let in front of the clauses: the clause then starts with a bound variable
-    let o2 = ShapeOpts { max_atoms: if thorough { 2 } else { 1 }, max_nonvar: 1, exprs: false, rels: vec![0, 1, 2, 3], extras: false, all_heads: false };
-    for front in [BodyItem::Gen(Gen::Range(0)), BodyItem::Cond(Cond::Let(0, Expr::Const(1)))] {
+    // (also a generator that does not cover the domain: the clauses must not bring values back that it never yields)
+    let o2 = ShapeOpts { max_atoms: 2, max_nonvar: if thorough { 1 } else { 0 }, exprs: false, rels: vec![0, 1, 2, 3], extras: false, all_heads: false };
+    for front in [BodyItem::Gen(Gen::Range(0)), BodyItem::Cond(Cond::Let(0, Expr::Const(1))), BodyItem::Gen(Gen::Two(0, Expr::Const(0), Expr::Const(0)))] {
         let mut bodies2 = vec![];
         let mut cur = vec![front.clone()];
         gen_atoms_after(&base, &o2, o2.max_atoms, &mut vec![0], &mut 1, 0, &mut cur, &mut bodies2);
